@@ -399,6 +399,14 @@ func smallTrees() []treeGen {
 			treeGen{fmt.Sprintf("O(a=fa%d)", i), func() any { return NewObject("a", pr[0]) }},
 			treeGen{fmt.Sprintf("O(a=fb%d)", i), func() any { return NewObject("a", pr[1]) }})
 	}
+	// the two float zeros are equal (Go ==)
+	out = append(out,
+		treeGen{"L(+0)", func() any { return NewList(0.0) }},
+		treeGen{"L(-0)", func() any { return NewList(math.Copysign(0, -1)) }},
+		treeGen{"O(a=+0)", func() any { return NewObject("a", 0.0) }},
+		treeGen{"O(a=-0)", func() any { return NewObject("a", math.Copysign(0, -1)) }},
+		treeGen{"L(L(-0))", func() any { return NewList(NewList(math.Copysign(0, -1))) }},
+		treeGen{"L(L(+0))", func() any { return NewList(NewList(0.0)) }})
 	// one container at two positions of a tree (a DAG) against trees that differ at the later occurrence
 	out = append(out,
 		treeGen{"L(sh,sh)", func() any { sh := NewList(1, 2); return NewList(sh, sh) }},
@@ -760,8 +768,29 @@ func c13ExportsAreGet(c *oracleCtx) {
 	})
 }
 
+// keys are byte strings: a native map with keys that are not valid UTF-8 comes back unchanged
+func c13RawKeys(c *oracleCtx) {
+	c.check("native:raw-keys", true, func() string {
+		m := map[string]any{"\xff": 1, "\xfe": 2, "a\x80b": map[string]any{"\xc3": []any{1}}, "ok": "v", "": 0, "\ufffd": 3}
+		o := NewObjectFrom(m)
+		if o.Count() != len(m) {
+			return fmt.Sprintf("NewObjectFrom keeps %d of %d fields (distinct keys collapsed)", o.Count(), len(m))
+		}
+		if !reflect.DeepEqual(o.NativeDict(), m) {
+			return "NewObjectFrom(m).NativeDict() does not reproduce m for keys that are not valid UTF-8"
+		}
+		for k := range m {
+			if _, ok := o.Dict()[k]; !ok || !o.KeyExists(k) {
+				return fmt.Sprintf("key %q is missing from Dict() / KeyExists", k)
+			}
+		}
+		return ""
+	})
+}
+
 func c13Oracle(c *oracleCtx) {
 	c13ExportsAreGet(c)
+	c13RawKeys(c)
 	trees := smallTrees()
 	c.rule = "small trees and native trees: Native* contain no container and are deep-equal to the content; NewXFrom(native).Native*() reproduces the input; Dict/Slice are one-level snapshots; mutating exports/sources never changes the container"
 	c.bound = fmt.Sprintf("%d container trees + 12 native trees", len(trees))
